@@ -30,14 +30,16 @@ impl PatchTrait for PatchArm {
 
         let instructions: [u32; 3] = if is_src_thumb {
             [
-                // ldr r7, [pc, #0] ; 0x4F00. It will load pc + 0 into r6, so the target word
-                // bx r7 ; 4738
+                // ldr.w r12, [pc, #4] ; F8DF C004. Loads the target word, which sits on the
+                // word boundary Align(pc, 4) + 4. r12 (ip) is the intra-procedure-call scratch
+                // register: the 16-bit `ldr rX, [pc]` form can only name r0-r7, which carry
+                // arguments or must be preserved by a callee (r7 is the Thumb frame pointer).
                 // Reversed because of little endian
-                0x47384F00,
+                0xC004F8DF,
+                // bx r12 ; 4760, then a NOP (mov r8, r8 ; 46C0) as padding
+                0x46C04760,
                 // .word target
                 target.as_ptr() as u32,
-                // .word anything (unused)
-                0x00000000,
             ]
         } else {
             [
@@ -58,12 +60,13 @@ impl PatchTrait for PatchArm {
         patch[4..8].copy_from_slice(&instructions[1].to_le_bytes());
         patch[8..12].copy_from_slice(&instructions[2].to_le_bytes());
 
-        // In thumb mode, if the source is not aligned on 32 bit, add a NOP to align it, so the target adress is also aligned on 32 bit
-        // If we don't do that, the load adress will be misaligned and will load the bx instruction instead of the target function.
+        // In thumb mode, if the source is not aligned on 32 bit, Align(pc, 4) + 4 is the halfword right
+        // after `bx`: move the target word there (the padding NOP goes behind it), otherwise the load
+        // would read the `bx`/NOP pair instead of the target function.
         if is_src_thumb && (src_ptr as usize % 4 != 0) {
-            patch.rotate_right(2);
-            patch[0] = 0xC0;
-            patch[1] = 0x46; // NOP instruction in Thumb mode
+            patch.copy_within(8..12, 6);
+            patch[10] = 0xC0;
+            patch[11] = 0x46; // NOP instruction in Thumb mode
         }
 
         unsafe {
